@@ -31,6 +31,12 @@ OVERLAYS = {
 ISOLATED_OVERLAYS = {
     'xpath_serial_bridge.rs': 'libs/testing/src/odk.rs',
 }
+# Fragile harness modules: isolated (as above) AND optional - they call private functions whose signatures a change may
+# alter. If the package does not compile with them, they are dropped from the scratch tree and the run is repeated; the
+# harnesses they contain are then reported as undecided parts instead of taking every other harness down with them.
+FRAGILE_OVERLAYS = {
+    'xpriv_serial_classifiers.rs': 'libs/serial/src/serial_sign_bus.rs',
+}
 PACKAGE_OF = {
     'libs/core/': 'flipdot-core', 'libs/testing/': 'flipdot-testing', 'libs/serial/': 'flipdot-serial', 'src/': 'flipdot',
 }
@@ -70,9 +76,23 @@ class Scratch:
         if not self.keep and self.dir and os.path.isdir(self.dir):
             shutil.rmtree(self.dir, ignore_errors=True)
 
+    def drop_fragile(self):
+        """Remove the fragile harness modules from the scratch tree (after a compile failure). Returns the dropped files."""
+        dropped = []
+        for mod_file, (tpath, modline) in self.fragile_lines.items():
+            t = open(tpath).read()
+            if modline in t:
+                open(tpath, 'w').write(t.replace(modline, ''))
+                dropped.append(mod_file)
+        self.fragile_dropped = True
+        self._hashes = {}
+        return dropped
+
     def _overlay(self):
         self.isolated_lines = {}
-        for mod_file, target in list(OVERLAYS.items()) + list(ISOLATED_OVERLAYS.items()):
+        self.fragile_lines = {}
+        self.fragile_dropped = False
+        for mod_file, target in list(OVERLAYS.items()) + list(ISOLATED_OVERLAYS.items()) + list(FRAGILE_OVERLAYS.items()):
             src = os.path.join(ROOT, 'kani', mod_file)
             if not os.path.exists(src):
                 continue
@@ -90,8 +110,10 @@ class Scratch:
             modline = '\n#[cfg(kani)]\n#[path = "%s"]\nmod %s;\n' % (dst, modname)
             with open(tpath, 'a') as f:
                 f.write(modline)
-            if mod_file in ISOLATED_OVERLAYS:
+            if mod_file in ISOLATED_OVERLAYS or mod_file in FRAGILE_OVERLAYS:
                 self.isolated_lines[mod_file] = modline
+            if mod_file in FRAGILE_OVERLAYS:
+                self.fragile_lines[mod_file] = (tpath, modline)
             self.applied.append('%s += mod %s (%s)' % (target, modname, src))
         for (file, rx, lines) in ATTR_INSERTS:
             if not os.path.exists(os.path.join(ROOT, 'kani', 'core_frame.rs')):
@@ -323,6 +345,17 @@ def _run_harnesses_uncached(scratch, package, harnesses, jobs=8, timeout=3600, e
     wall = time.time() - t0
     meta = {'cmd': ' '.join(cmd), 'wall_s': wall, 'exit': p.returncode, 'tail': out[-6000:]}
     if 'error: could not compile' in out or re.search(r'(?m)^error(\[E\d+\])?:', out) and 'Checking harness' not in out:
+        if getattr(scratch, 'fragile_lines', None) and not scratch.fragile_dropped:
+            dropped = scratch.drop_fragile()
+            if dropped:
+                gone = set()
+                for f in dropped:
+                    gone |= set(re.findall(r'#\[kani::proof[^\]]*\]\s*(?:#\[[^\]]*\]\s*)*fn\s+(\w+)', open(os.path.join(ROOT, 'kani', f)).read()))
+                harnesses = [h for h in harnesses if h not in gone]
+                res, meta2 = _run_harnesses_uncached(scratch, package, harnesses, jobs, timeout, extra_args, target_slot)
+                meta2['fragile_overlays_dropped'] = dropped
+                meta2['wall_s'] += wall
+                return res, meta2
         raise ToolLimit('overlay/crate did not compile under kani:\n' + out[-4000:])
     res = parse_terse(out)
     # map by short name
